@@ -51,6 +51,16 @@ rec['detected_by'] = [c for c, v in det.items() if v['exit'] == 1]
 rec['what_was_run'] = f'patch applied to a scratch copy of /repo at {subprocess.run(["git","-C","/repo","rev-parse","--short","HEAD"],capture_output=True,text=True).stdout.strip()}; tools/baseline.py; demo.py with/without; ./check <id> --tier {a.tier} with VERIF_REPO=<copy>'
 out = f'/verif/seeded/{a.name}'
 os.makedirs(out, exist_ok=True)
+old = os.path.join(out, 'meta.json')
+if os.path.exists(old):
+    prev = json.load(open(old))
+    hist = prev.get('earlier_runs', [])
+    hist.append({'verif_commit': prev.get('verif_commit'), 'checks_run': prev.get('checks_run'), 'detected_by': prev.get('detected_by')})
+    rec['earlier_runs'] = hist
+    for k in ('baseline', 'baseline_still_passes'):
+        if k not in rec and k in prev:
+            rec[k] = prev[k]
+rec['verif_commit'] = subprocess.run(['git', '-C', '/verif', 'rev-parse', '--short', 'HEAD'], capture_output=True, text=True).stdout.strip()
 shutil.copy(os.path.join(a.src, 'patch.diff'), out); shutil.copy(os.path.join(a.src, 'demo.py'), out)
 json.dump(rec, open(os.path.join(out, 'meta.json'), 'w'), indent=1)
 shutil.rmtree(d, ignore_errors=True)
